@@ -74,7 +74,9 @@ def all_exhaustive():
         for a in range(3):
             yield "exh", prog(MARK[:d], [108], alt=V6[:a])
             yield "exh", prog(MARK[:d], [107, 108, 108], alt=V6[:a])
-    idx = [b"", b"\x00", b"\x01", b"\x02", b"\x03", b"\x04", b"\x81", b"\x80", b"\x7f", b"\x01\x00", b"\x00\x00\x00\x80\x00", b"\x01\x00\x00\x00\x00\x00"]
+    BIGN = [b"\x00\x00\x00\x00\x01", b"\x01\x00\x00\x00\x01", b"\x02\x00\x00\x00\x01", b"\x00\x00\x00\x00\x81", b"\xff\xff\xff\xff", b"\xff\xff\xff\x7f", b"\x00\x00\x00\x80\x80", b"\x01\x00\x00\x80\x80",
+            b"\x00\x00\x00\x00\x00\x00\x00\x80\x00", b"\x00\x00\x00\x00\x00\x00\x00\x00\x01", b"\x01\x00\x00\x00\x00\x00\x00\x00\x01", b"\xfe\xff\xff\xff\x00"]
+    idx = [b"", b"\x00", b"\x01", b"\x02", b"\x03", b"\x04", b"\x81", b"\x80", b"\x7f", b"\x01\x00", b"\x00\x00\x00\x80\x00", b"\x01\x00\x00\x00\x00\x00"] + BIGN
     for c in (121, 122):
         for d in range(0, 5):
             for n in idx:
@@ -82,15 +84,15 @@ def all_exhaustive():
         yield "exh", prog([], [c])
     xs = [b"", b"\x01", b"\x01\x02\x03", V15[-1]]
     for x in xs:
-        for n in [b"", b"\x00", b"\x01", b"\x02", b"\x03", b"\x04", b"\x81", b"\x50", b"\x51", b"\x01\x00", b"\x80", b"\x03\x00\x00\x00\x00"]:
+        for n in [b"", b"\x00", b"\x01", b"\x02", b"\x03", b"\x04", b"\x81", b"\x50", b"\x51", b"\x01\x00", b"\x80", b"\x03\x00\x00\x00\x00"] + BIGN:
             yield "exh", prog([MARK[0], x, n], [127])
             yield "exh", prog([x, n], [127])
     yield "exh", prog([b"\x01"], [127])
     for a in V15:
-        for size in [b"", b"\x00", b"\x01", b"\x02", b"\x04", b"\x05", b"\x08", b"\x09", b"\x0a", b"\x81", b"\x50", b"\x51", b"\xd0\x07", b"\x02\x00"]:
+        for size in [b"", b"\x00", b"\x01", b"\x02", b"\x04", b"\x05", b"\x08", b"\x09", b"\x0a", b"\x81", b"\x50", b"\x51", b"\xd0\x07", b"\x02\x00", b"\x00\x00\x00\x00\x81", b"\xff\xff\xff\xff", b"\x00\x00\x00\x80\x80"]:
             yield "exh", prog([MARK[0], a, size], [128])
     for x in V15:
-        for n in [b"", b"\x00", b"\x01", b"\x07", b"\x08", b"\x09", b"\x0f", b"\x10", b"\x81", b"\x40", b"\xe8\x03", b"\x01\x00", b"\x80"]:
+        for n in [b"", b"\x00", b"\x01", b"\x07", b"\x08", b"\x09", b"\x0f", b"\x10", b"\x81", b"\x40", b"\xe8\x03", b"\x01\x00", b"\x80", b"\x00\x00\x00\x00\x81", b"\xff\xff\xff\xff", b"\x00\x00\x00\x80\x80"]:
             for c in (152, 153):
                 yield "exh", prog([MARK[0], x, n], [c])
     for c in (152, 153, 128, 127):
